@@ -276,7 +276,7 @@ def label_lines(lines, fnname, section_default=None):
     return out
 
 
-def build_fn(part, sf, unit, opts, canary=None):
+def build_fn(part, sf, unit, opts, canary=None, drop_hints=()):
     kv = part['kv']
     it = sf.find_fn(part['qual'], kv.get('impl'))
     fnname = kv.get('as') or part['qual']
@@ -356,6 +356,8 @@ def build_fn(part, sf, unit, opts, canary=None):
         part = dict(part, loops={}, ats=[])   # nothing is inserted into a stub body
     anchors_lost = None
     try:
+        if fnname in drop_hints or part['qual'] in drop_hints:
+            raise LostAnchor('fn %s: a proof hint no longer compiles (names a local that does not exist any more)' % part['qual'])
         _check_anchors(part, loops, bm)
     except LostAnchor as e:
         # the body no longer has the shape the proof hints were written for: keep the CONTRACT, drop the hints.
@@ -616,7 +618,7 @@ def build_item(part, sf, opts):
     return segs, {'item': part['name'], 'file': sf.rel, 'line': line_of(sf.src, it.sig_start), 'rules': c1}
 
 
-def build(unit_path, out_path, defines=(), canary=None):
+def build(unit_path, out_path, defines=(), canary=None, drop_hints=()):
     unit = parse_unit(unit_path, defines)
     opts = {'sequential_await': 'sequential-await' in unit['opts'],
             'fmt_keep_args': 'fmt-keep-args' in unit['opts'],
@@ -652,7 +654,7 @@ def build(unit_path, out_path, defines=(), canary=None):
             if (part['alias'], part['qual']) in seen_fns:
                 continue
             seen_fns.add((part['alias'], part['qual']))
-            s, info = build_fn(part, sources[part['alias']], unit, opts, canary)
+            s, info = build_fn(part, sources[part['alias']], unit, opts, canary, drop_hints)
             segs += s
             fns.append(info)
     # D8: constants of a source file that an extracted function mentions are extracted too (a new guard constant
